@@ -235,7 +235,7 @@ CHECKS = {
               'at any position, conditional parameters on bits 0..31 incl. shared bits and true, vectors of every element kind, recursive types, 0..4 functions returning '
               'objects, enums, Bool and vectors, @type/@constructor/@enum/@method/@param annotations with arbitrary text, parameter names incl. keywords/errors/c). '
               'Non-trivial: the schema has a shared bit, a flags word that is not first, a constructor named like its type, a namespace or a vector result; distinct by hash of the text.'),
-        must_hit=['feat:constructors-of-a-type-not-adjacent', 'feat:line>=64KiB', 'feat:shared-bit', 'feat:flags-not-first', 'feat:constructor-named-like-type', 'feat:namespace', 'feat:enum-type', 'feat:single-constructor-type', 'feat:multi-constructor-type',
+        must_hit=['feat:last-line-is-a-comment-without-newline', 'feat:constructors-of-a-type-not-adjacent', 'feat:line>=64KiB', 'feat:shared-bit', 'feat:flags-not-first', 'feat:constructor-named-like-type', 'feat:namespace', 'feat:enum-type', 'feat:single-constructor-type', 'feat:multi-constructor-type',
                   'feat:function-returning-Bool', 'feat:function-returning-vector', 'feat:function-returning-object', 'feat:function-returning-enum', 'feat:vector-parameter',
                   'feat:object-typed-parameter', 'shipped:api_latest.tl', 'shipped:parser-totality', 'compiled-packages'],
         assumptions=['identifiers are snake_case words of letters and digits without empty segments (as in every shipped schema)',
